@@ -138,6 +138,8 @@ def gen_cases(rng, tier):
                         add(L, b, h)  # second window/format combination
             else:
                 hs = {1, b, L - b, L, L + 1, rng.range(1, 45), rng.range(2, 12)} | ({2, L - b + 1} if (L + b) % 2 == 0 else {b + 1, L - 1, 45})
+                if L > 20 and L % 4 != 0:
+                    hs -= {1, 2}  # the many-chunk runs are the expensive ones: every 4th L above 20
                 for h in sorted(x for x in hs if 1 <= x <= 45):
                     add(L, b, h)
     n_grid = len(items)
@@ -332,7 +334,7 @@ def finish(rep, info, n, nontriv, dist, samples, bad=(), vbad=(), fb=(0, 0)):
             "libm cos: taken from the implementation as data in the model run; validated against python math.cos (same glibc) with a 4-ulp tolerance on the cos value"],
         "theorems": th, "axioms_reported": info.get("axioms", []),
         "evaluations": n, "distinct_nontrivial": nontriv,
-        "rule": "grid L=0..40 x bin=2..9 x hop (quick: structured subset {1,b,L-b,L,L+1}+{2,L-b+1} or {b+1,L-1,45}+2 random; thorough: all 1..45), window and frame format rotating over {Hann,Rectangle} x {f32,f64,i16} x {1,2 channels}; plus larger random (L<=150, bin<=64), off-domain (bin<2, hop=0) and window-function cases; non-trivial = bin>=2, hop>=1 and (L >= bin+hop, i.e. at least two chunks, or L == bin)",
+        "rule": "grid L=0..40 x bin=2..9 x hop (quick: structured subset {1,b,L-b,L,L+1}+{2,L-b+1} or {b+1,L-1,45}+2 random, hop 1 and 2 only for L<=20 or L%4=0; thorough: all 1..45), window and frame format rotating over {Hann,Rectangle} x {f32,f64,i16} x {1,2 channels}; plus larger random (L<=150, bin<=64), off-domain (bin<2, hop=0) and window-function cases; non-trivial = bin>=2, hop>=1 and (L >= bin+hop, i.e. at least two chunks, or L == bin)",
         "samples": samples, "input_distribution": dist, "disagreements": len(bad), "verdict_failures": len(vbad),
         "explanation": "theorems: window shape over R with the true cos, sampled phases, chunk count / chunk position / size_hint for all L, bin>=1, hop>=1 by induction; tie: the model's IEEE instance run by coqc on the same cases as the real crates, every observation compared exactly except libm cos (4-ulp oracle)",
     }
